@@ -573,6 +573,104 @@ def _run_sessions(case: dict) -> core.CaseResult:
     return res
 
 
+def _run_special(case: dict) -> core.CaseResult:
+    """kind 'special': symbolic links (an include reached through a link, the root path being a link) and non-ASCII contents.
+    case = {kind:'special', what:'symlink-include'|'symlink-root'|'non-ascii', api:'one'|'rec', eol:'l'|'c'}"""
+    import locale
+    res = core.CaseResult()
+    what, api = case['what'], case['api']
+    if what == 'non-ascii' and locale.getpreferredencoding(False).lower().replace('-', '') != 'utf8':
+        res.outcomes['skipped: preferred encoding is not UTF-8'] += 1
+        return res
+    parser = docs.P()
+    ed = editor_lib.Editor(parser)
+    top = os.path.realpath(tempfile.mkdtemp(prefix=_tmp_prefix(), dir=_tmp_base()))
+    old_cwd = os.getcwd()
+    e = '\r\n' if case.get('eol') == 'c' else '\n'
+    extra = ' \u00e9\u4e16\U0001F600' if what == 'non-ascii' else ''
+    try:
+        world = os.path.join(top, 'dir')
+        os.mkdir(world)
+
+        def content(name: str, incs: list) -> bytes:
+            lines = [f'; file {name}{extra}', f'option "title" "t{extra}"'] + [f'include "{i}"' for i in incs] + ['2000-01-01 open Assets:Old']
+            return ''.join(x + e for x in lines).encode('utf-8')
+        files = {'main.bean': content('main.bean', ['inc/*.bean'] if what == 'symlink-include' else []), }
+        os.mkdir(os.path.join(world, 'inc'))
+        os.mkdir(os.path.join(world, 'real'))
+        with open(os.path.join(world, 'main.bean'), 'wb') as f:
+            f.write(files['main.bean'])
+        target = os.path.join(world, 'real', 'a.bean')
+        with open(target, 'wb') as f:
+            f.write(content('a.bean', []))
+        root = os.path.join(world, 'main.bean')
+        if what == 'symlink-include':
+            os.symlink(os.path.join('..', 'real', 'a.bean'), os.path.join(world, 'inc', 'a.bean'))
+        elif what == 'symlink-root':
+            os.symlink(os.path.join('real', 'a.bean'), os.path.join(world, 'rootlink.bean'))
+            root = os.path.join(world, 'rootlink.bean')
+        for dp, _, fns in os.walk(world):
+            for fn in fns:
+                os.utime(os.path.join(dp, fn), ns=(PAST_NS, PAST_NS), follow_symlinks=True)
+        before = {p: open(p, 'rb').read() for p in (os.path.join(world, 'main.bean'), target)}
+        res.transitions += 1
+        try:
+            if api == 'one':
+                with ed.edit_file(root) as file:
+                    _edit(file)
+                edited = {os.path.realpath(root)}
+            else:
+                with ed.edit_file_recursive(root) as mapping:
+                    keys = list(mapping)
+                    for k in keys:
+                        _edit(mapping[k])
+                edited = {os.path.realpath(k) for k in keys}
+                real = [os.path.realpath(k) for k in keys]
+                if len(set(real)) != len(real):
+                    res.fail('C16/file-visited-twice-via-two-spellings', f'{what}: keys {keys} name a file twice', case)
+                    return res
+        except Exception as ex:  # noqa
+            res.fail(f'C16/exit-raises[{API_NAME[api]}]', f'{what}: {type(ex).__name__}: {str(ex).replace(top, "<tmp>")}', case)
+            return res
+        for p, old in before.items():
+            now = open(p, 'rb').read()
+            want = expected_edit(old) if p in edited else old
+            if now != want:
+                res.fail(f'C16/edited-file-content-differs[{API_NAME[api]},{what}]',
+                         f'{os.path.relpath(p, world)}: {now!r}, expected {want!r}', case)
+                return res
+        for link in ('inc/a.bean', 'rootlink.bean'):
+            lp = os.path.join(world, link)
+            if os.path.lexists(lp) and not os.path.islink(lp):
+                res.fail(f'C16/symbolic-link-replaced-by-a-file[{API_NAME[api]}]', f'{link} is no longer a symbolic link', case)
+                return res
+        names = sorted(os.path.relpath(os.path.join(dp, fn), world) for dp, _, fns in os.walk(world) for fn in fns)
+        want_names = sorted(['main.bean', 'real/a.bean'] + (['inc/a.bean'] if what == 'symlink-include' else []) +
+                            (['rootlink.bean'] if what == 'symlink-root' else []))
+        if names != want_names:
+            res.fail(f'C16/unexpected-files[{API_NAME[api]},{what}]', f'directory now holds {names}, expected {want_names}', case)
+            return res
+        h = core.h64(repr(case))
+        res.states.add(h)
+        res.nontrivial.add(h)
+        res.outcomes['special:' + what] += 1
+    finally:
+        os.chdir(old_cwd)
+        shutil.rmtree(top, ignore_errors=True)
+    return res
+
+
+def special_cases() -> list:
+    out = []
+    for what in ('symlink-include', 'symlink-root', 'non-ascii'):
+        for api in ('one', 'rec'):
+            if what == 'symlink-include' and api == 'one':
+                continue
+            for eol in ('l', 'c'):
+                out.append({'kind': 'special', 'what': what, 'api': api, 'eol': eol})
+    return out
+
+
 def session_cases() -> list:
     base = {'main.bean': ['*.bean'], 'a.bean': [], 'b.bean': []}
     grown = dict(base, **{'new.bean': []})
@@ -592,6 +690,8 @@ def run_case(case: dict) -> core.CaseResult:
         return _run_errline(case)
     if case.get('kind') == 'sessions':
         return _run_sessions(case)
+    if case.get('kind') == 'special':
+        return _run_special(case)
     res = core.CaseResult()
     files = expand_world(case['w'])
     api, edit, st, rz = case['api'], case.get('edit', []), case.get('st'), case.get('rz')
@@ -783,6 +883,8 @@ def build_cases(tier: str) -> tuple:
     nomatch_worlds = [w for w in variant_worlds('quick') if expected_visit(expand_world(w))[1]]
     items.append({'kind': 'errline', 'worlds': nomatch_worlds, 'sp': SPELLINGS})
     items.extend(session_cases())
+    items.extend(special_cases())
+    bounds['special'] = 'symbolic link as include target / as root path; non-ASCII contents (UTF-8 locales only); both APIs; LF and CRLF'
     bounds['sessions'] = 'sequences of 2-3 recursive sessions in one process over a directory that grows / shrinks / changes its includes in between, absolute and bare root spelling'
     return items, bounds, pruned
 
